@@ -12,6 +12,10 @@ Requests
   while the cells hold other values, then overwrites them).
 
 Answers: `ok <n> <entries of square().matrix()> | <n> <entries of matrix()>`, or `err <Constructor>`.
+
+* `sqact <mask> <term> | <ψ1> | <ψ2> | <Ψ>` — the same, plus what the returned gate DOES: `ψ1`, `ψ2` are vectors of `2^n`
+  amplitudes, `Ψ` a `2^n × 3` matrix (row-major).  Answer: `ok <sq matrix> | <matrix> | <square().apply(ψ1)> |
+  <square().apply_slice(ψ2)> | <square().apply_mat(Ψ)>`; the model's answer is the returned gate's matrix times the input.
 -/
 open Q1t Q1t.Proto Q1t.GateParse Q1t.CFloat
 
@@ -65,12 +69,44 @@ def readReq (ws : List String) : Option (PG × Store Float) :=
     | _ => none
   | _ => none
 
+/-- `sqact <mask> <term> | ψ1 | ψ2 | Ψ` → the labelled term, the store, and the three inputs -/
+def readAct (ws : List String) : Option (PG × Store Float × List CFloat × List CFloat × LMat CFloat) :=
+  match ws with
+  | "sqact" :: mask :: rest =>
+    match parseGate rest with
+    | some (g, "|" :: data) =>
+      match splitBars data with
+      | [a, b, c] => do
+        let v1 ← parseVec a; let v2 ← parseVec b; let v3 ← parseVec c
+        let dim := 2 ^ Gate.nrBits g
+        if v1.length ≠ dim ∨ v2.length ≠ dim ∨ v3.length ≠ 3 * dim then none
+        let vals := g.params.toArray
+        let m3 : LMat CFloat := (List.range dim).map fun r => (v3.drop (r * 3)).take 3
+        pure ((label mask.toList.toArray 0 g).1, ⟨fun k => vals.getD k 0.0, fun k => vals.getD k 0.0⟩, v1, v2, m3)
+      | _ => none
+    | _ => none
+  | _ => none
+
 def errName : SqErr → String
   | .referenceArithmetic => "ReferenceArithmetic"
   | .opNotImplemented => "OpNotImplemented"
   | .noImpl => "NoImpl"
 
+def handleAct (ws : List String) : String :=
+  match readAct ws with
+  | some (g, s, v1, v2, m3) =>
+    match Gate.square g with
+    | .ok g2 =>
+      let m2 : LMat CFloat := Gate.matrixAt s g2
+      let m : LMat CFloat := Gate.matrixAt s g
+      if m2.isEmpty || m.isEmpty then "panic" else
+      "ok " ++ showMat m2 ++ " | " ++ showMat m ++ " | " ++ showVec (LMat.mulVec m2 v1) ++ " | " ++
+        showVec (LMat.mulVec m2 v2) ++ " | " ++ showVec (LMat.mul m2 m3).flatten
+    | .error e => "err " ++ errName e
+  | none => "bad-op"
+
 def handle (line : String) : String :=
+  if (words line).head? = some "sqact" then handleAct (words line) else
   match readReq (words line) with
   | some (g, s) =>
     match Gate.square g with
@@ -127,14 +163,56 @@ def argmax (m : LMat CFloat) : Nat × Nat × Float :=
 /-- (B): the matrix of the returned gate equals `matrix()·matrix()` of the original up to ONE global
 phase (this forces exact equality of the controlled block of a controlled gate); an error is
 acceptable only where there is a cause (a non-`Direct` parameter, or a `U3`, outside loop bodies). -/
+def maxDistV (a b : List CFloat) : Float :=
+  if a.length ≠ b.length then 1e9 else (List.zipWith CFloat.dist a b).foldl max 0
+
+/-- (B) for `sqact`: first the matrix statement as for `square`; then every output of the returned gate — `apply` on `ψ1`,
+`apply_slice` on `ψ2`, `apply_mat` on `Ψ` — must be `c · matrix()·matrix()` applied to the input, with the SAME unit scalar
+`c` (the original's matrix is the implementation's own answer; nothing of the model is used). -/
+def specAct (req ans : String) : String :=
+  match readAct (words req) with
+  | none => "fail bad-request"
+  | some (g, _, v1, v2, m3) =>
+    match words ans with
+    | "err" :: _ => if refusalCause g then "ok" else "fail square-refused-without-cause " ++ " ".intercalate (words ans)
+    | "ok" :: rest =>
+      match splitBars rest with
+      | [a, b, o1, o2, o3] =>
+        match parseMat a, parseMat b, parseVec o1, parseVec o2, parseVec o3 with
+        | some sq, some m, some o1, some o2, some o3 =>
+          let mm := LMat.mul m m
+          let (i, j, w) := argmax mm
+          if w < 1e-6 then "fail degenerate-matrix" else
+          let num := LMat.get sq i j * Amp.conj Float (LMat.get mm i j)
+          let c : CFloat := ⟨num.re / w, num.im / w⟩
+          let dPhase := (CFloat.normSq c - 1.0).abs
+          let cmm := Spec.scale c mm
+          let d := maxDist sq cmm
+          let cls := if hasU2UnderC g then "cu2-square" else "square-differs"
+          if dPhase > 1e-9 || d > 1e-9 then
+            s!"fail {cls} not-equal-up-to-one-global-phase dist={d} |c|^2-1={dPhase} exactdist={maxDist sq mm}"
+          else
+          let d1 := maxDistV o1 (LMat.mulVec cmm v1)
+          let d2 := maxDistV o2 (LMat.mulVec cmm v2)
+          let d3 := maxDistV o3 (LMat.mul cmm m3).flatten
+          let clsA := if hasU2UnderC g then "cu2-square" else "square-action-differs"
+          if d1 > 1e-9 then s!"fail {clsA} square().apply(psi) is not matrix()*matrix()*psi (same phase as square().matrix()) dist={d1}"
+          else if d2 > 1e-9 then s!"fail {clsA} square().apply_slice(psi) is not matrix()*matrix()*psi dist={d2}"
+          else if d3 > 1e-9 then s!"fail {clsA} square().apply_mat(Psi) is not matrix()*matrix()*Psi dist={d3}"
+          else "ok"
+        | _, _, _, _, _ => "fail bad-answer"
+      | _ => "fail bad-answer"
+    | _ => "fail square-call-did-not-return " ++ " ".intercalate (words ans)
+
 def specCheck (line : String) : String :=
   match line.splitOn "\t" with
   | [req, ans] =>
+    if (words req).head? = some "sqact" then specAct req ans else
     match readReq (words req) with
     | none => "fail bad-request"
     | some (g, _) =>
       match words ans with
-      | "err" :: _ => if refusalCause g then "ok" else "fail square-refused-without-cause " ++ ans
+      | "err" :: _ => if refusalCause g then "ok" else "fail square-refused-without-cause " ++ " ".intercalate (words ans)
       | "ok" :: rest =>
         let (a, b) := splitBar rest
         match parseMat a, parseMat b with
@@ -151,7 +229,7 @@ def specCheck (line : String) : String :=
             s!"fail {cls} not-equal-up-to-one-global-phase dist={d} |c|^2-1={dPhase} exactdist={maxDist sq mm}"
           else "ok"
         | _, _ => "fail bad-answer"
-      | _ => "fail square-call-did-not-return " ++ ans
+      | _ => "fail square-call-did-not-return " ++ " ".intercalate (words ans)
   | _ => "fail bad-line"
 
 def main (args : List String) : IO Unit :=
